@@ -4,7 +4,12 @@ package main
 // of counterexamples -> known-findings filter -> evidence -> exit code.
 
 import (
+	"bytes"
 	"encoding/json"
+	"go/ast"
+	"go/format"
+	"go/parser"
+	"go/token"
 	"fmt"
 	"os"
 	"os/exec"
@@ -39,6 +44,7 @@ type Spec struct {
 	Assumptions []string  `json:"assumptions"`
 	Outside     []string  `json:"outside_the_claim"`
 	Stubs       []string  `json:"stubs"`
+	Directed    bool                   `json:"directed"` // schedule-dependent findings can be replayed with sync/sync.atomic instrumented
 	Cfg         map[string]interface{} `json:"cfg"` // defaults for every run of this spec/part
 	Parts       []Spec    `json:"parts"` // a property spanning several packages: one part per package
 }
@@ -403,11 +409,73 @@ func imax(a, b int) int {
 
 // ---- native replay ----
 
+// writeAndRunReplay turns a finding into an ordinary Go test against the real build (all
+// files injected by -overlay) and runs it. For schedule-dependent findings of packages
+// whose synchronisation is sync/sync.atomic only (spec "directed"), a first attempt enforces
+// the engine's order of synchronisation operations (rt/vrt.go.tmpl); otherwise, or if that
+// does not reproduce, the scenario is stress-run with free scheduling.
 func writeAndRunReplay(dir string, spec *Spec, entry string, f *Finding, params map[string]int64) (bool, string) {
+	nondet := false
+	for _, d := range f.Decs {
+		if d.K == DChoose && (d.Tag == "sched" || d.Tag == "maporder" || d.Tag == "select" || d.Tag == "pool-get" || d.Tag == "pool-drop") {
+			nondet = true
+		}
+	}
+	if spec.Directed && len(f.Sched) > 0 {
+		ok, out := runReplay(dir, spec, entry, f, params, true, 1)
+		if ok {
+			return true, out
+		}
+	}
+	count := 1
+	if nondet {
+		count = 100
+	}
+	if f.Outcome == ORace {
+		count = 30
+	}
+	return runReplay(dir, spec, entry, f, params, false, count)
+}
+
+func rewriteSyncImports(src []byte, filename string) ([]byte, bool, error) {
+	fset := token.NewFileSet()
+	af, err := parser.ParseFile(fset, filename, src, parser.ParseComments)
+	if err != nil {
+		return nil, false, err
+	}
+	changed := false
+	for _, im := range af.Imports {
+		switch im.Path.Value {
+		case `"sync"`:
+			im.Name = ast.NewIdent("sync")
+			im.Path.Value = `"` + repoModule + `/internal/vrt"`
+			changed = true
+		case `"sync/atomic"`:
+			im.Name = ast.NewIdent("atomic")
+			im.Path.Value = `"` + repoModule + `/internal/vrt"`
+			changed = true
+		}
+	}
+	if !changed {
+		return src, false, nil
+	}
+	var buf bytes.Buffer
+	if err := format.Node(&buf, fset, af); err != nil {
+		return nil, false, err
+	}
+	return buf.Bytes(), true, nil
+}
+
+func runReplay(dir string, spec *Spec, entry string, f *Finding, params map[string]int64, directed bool, count int) (bool, string) {
 	os.RemoveAll(dir)
 	os.MkdirAll(dir, 0o755)
 	rec := map[string]interface{}{"inputs": f.Inputs, "choices": f.Choices, "uf": f.UFTables, "params": params,
-		"outcome": f.Outcome.String(), "label": f.Label, "msg": f.Msg, "pos": f.Pos, "schedule": f.Sched, "entry": entry}
+		"outcome": f.Outcome.String(), "label": f.Label, "msg": f.Msg, "pos": f.Pos, "entry": entry}
+	if directed {
+		rec["schedule"] = f.Sched
+	} else {
+		rec["engine_schedule"] = f.Sched
+	}
 	var ds []string
 	for _, d := range f.Decs {
 		ds = append(ds, fmt.Sprintf("%d:%s:%d", d.K, d.Tag, d.V))
@@ -420,40 +488,63 @@ func writeAndRunReplay(dir string, spec *Spec, entry string, f *Finding, params 
 	wr := func(virt, name, text string) {
 		p := filepath.Join(dir, name)
 		os.WriteFile(p, []byte(text), 0o644)
-		repl[filepath.Join(pkgDir, virt)] = p
+		repl[virt] = p
 	}
+	inPkg := func(n string) string { return filepath.Join(pkgDir, n) }
 	pk := "package " + spec.PkgName
-	wr("zz_verif_rt_test.go", "rt_native.go", strings.ReplaceAll(readRT("rt_native.go.tmpl"), "package PKG", pk))
-	wr("zz_verif_common_test.go", "rt_common.go", strings.ReplaceAll(readRT("rt_common.go.tmpl"), "package PKG", pk))
+	wr(inPkg("zz_verif_rt_test.go"), "rt_native.go", strings.ReplaceAll(readRT("rt_native.go.tmpl"), "package PKG", pk))
+	wr(inPkg("zz_verif_common_test.go"), "rt_common.go", strings.ReplaceAll(readRT("rt_common.go.tmpl"), "package PKG", pk))
+	hooks := "rt_undirected.go.tmpl"
+	if directed {
+		hooks = "rt_directed.go.tmpl"
+	}
+	wr(inPkg("zz_verif_hooks_test.go"), "rt_hooks.go", strings.ReplaceAll(readRT(hooks), "package PKG", pk))
 	for _, h := range spec.Harness {
 		hb, _ := os.ReadFile(filepath.Join(verifDir, h))
-		wr("zz_verif_h_"+strings.TrimSuffix(filepath.Base(h), ".go")+"_test.go", "harness_"+filepath.Base(h), string(hb))
+		if directed {
+			if nb, _, err := rewriteSyncImports(hb, h); err == nil {
+				hb = nb
+			}
+		}
+		wr(inPkg("zz_verif_h_"+strings.TrimSuffix(filepath.Base(h), ".go")+"_test.go"), "harness_"+filepath.Base(h), string(hb))
 	}
-	wr("zz_verif_drv_test.go", "driver.go", fmt.Sprintf("%s\n\nimport \"testing\"\n\nfunc TestVerifReplay(t *testing.T) { vrtMain(t, %s) }\n", pk, entry))
-	ob, _ := json.MarshalIndent(map[string]interface{}{"Replace": repl}, "", " ")
-	os.WriteFile(filepath.Join(dir, "overlay.json"), ob, 0o644)
-	nondet := false
-	for _, d := range f.Decs {
-		if d.K == DChoose && (d.Tag == "sched" || d.Tag == "maporder" || d.Tag == "select" || d.Tag == "pool-get" || d.Tag == "pool-drop") {
-			nondet = true
+	wr(inPkg("zz_verif_drv_test.go"), "driver.go", fmt.Sprintf("%s\n\nimport \"testing\"\n\nfunc TestVerifReplay(t *testing.T) { vrtMain(t, %s) }\n", pk, entry))
+	if directed {
+		wr(filepath.Join(repoDir, "internal", "vrt", "vrt.go"), "vrt.go", readRT("vrt.go.tmpl"))
+		ents, _ := os.ReadDir(pkgDir)
+		for _, e := range ents {
+			n := e.Name()
+			if e.IsDir() || !strings.HasSuffix(n, ".go") || strings.HasSuffix(n, "_test.go") {
+				continue
+			}
+			src, err := os.ReadFile(filepath.Join(pkgDir, n))
+			if err != nil {
+				continue
+			}
+			nb, changed, err := rewriteSyncImports(src, n)
+			if err == nil && changed {
+				wr(inPkg(n), "instrumented_"+n, string(nb))
+			}
 		}
 	}
-	count := 1
+	ob, _ := json.MarshalIndent(map[string]interface{}{"Replace": repl}, "", " ")
+	os.WriteFile(filepath.Join(dir, "overlay.json"), ob, 0o644)
 	extra := ""
-	if nondet {
-		count = 100
-	}
 	if f.Outcome == ORace {
 		extra = "-race"
-		count = 30
+	}
+	mode := "free scheduling"
+	if directed {
+		mode = "the engine's order of synchronisation operations enforced (internal/vrt injected for sync and sync/atomic)"
 	}
 	script := fmt.Sprintf(`#!/bin/sh
 # Replays a counterexample found by symgo against the real build of /repo (nothing is written to /repo).
 # outcome: %s   label: %s
 # %s
+# mode: %s
 export GOFLAGS=-mod=mod GOPROXY=off GOSUMDB=off GOTOOLCHAIN=local
 cd %s && VERIF_RECORD=%s/record.json go test -vet=off -count=%d %s -failfast -overlay %s/overlay.json -run '^TestVerifReplay$' -timeout 120s . 2>&1
-`, f.Outcome, f.Label, strings.ReplaceAll(f.Msg, "\n", " "), pkgDir, dir, count, extra, dir)
+`, f.Outcome, f.Label, strings.ReplaceAll(f.Msg, "\n", " "), mode, pkgDir, dir, count, extra, dir)
 	os.WriteFile(filepath.Join(dir, "replay.sh"), []byte(script), 0o755)
 	cmd := exec.Command("/bin/sh", filepath.Join(dir, "replay.sh"))
 	outb, _ := cmd.CombinedOutput()
@@ -500,6 +591,7 @@ func validateSamples(spec *Spec, entry string, fs []*Finding, params map[string]
 	pk := "package " + spec.PkgName
 	wr("zz_verif_rt_test.go", "rt_native.go", strings.ReplaceAll(readRT("rt_native.go.tmpl"), "package PKG", pk))
 	wr("zz_verif_common_test.go", "rt_common.go", strings.ReplaceAll(readRT("rt_common.go.tmpl"), "package PKG", pk))
+	wr("zz_verif_hooks_test.go", "rt_hooks.go", strings.ReplaceAll(readRT("rt_undirected.go.tmpl"), "package PKG", pk))
 	for _, h := range spec.Harness {
 		hb, _ := os.ReadFile(filepath.Join(verifDir, h))
 		wr("zz_verif_h_"+strings.TrimSuffix(filepath.Base(h), ".go")+"_test.go", "harness_"+filepath.Base(h), string(hb))
